@@ -98,12 +98,16 @@ pub struct Ext {
     /// nested containers: id -> unit of the item holding them
     pub nested: HashMap<String, Uid>,
     pub lww_concurrent: bool,
+    pub c11: Option<crate::c11::C11State>,
     /// the author's own clock before its current local transaction
     pub clock_before: u32,
     pub lww_write_vs_remove: bool,
 }
 
 pub fn init(w: &mut World) {
+    if w.mon.c11 {
+        w.ext.c11 = Some(crate::c11::init(w));
+    }
     if w.mon.c07 {
         w.ext.f1 = Some(Follower::new(800_001, true));
         w.ext.f2 = Some(Follower::new(800_002, false));
@@ -1184,6 +1188,7 @@ pub fn nontrivial_ext(prop: &str, w: &World) -> bool {
         "C06" => w.cnt.get("c06_exchanges") > 0,
         "C07" => w.cnt.get("c07_changing_transactions") >= 3 && w.nonfifo,
         "C08" => w.cnt.get("c08_comparisons") > 0,
+        "C11" => w.cnt.get("c11_events_applied") >= 3 && w.cnt.get("msgs_rebroadcast") > 0,
         "C13" => w.cnt.get("c13_restores") > 0,
         "C14" => w.cnt.get("c14_resolutions_checked") > 0,
         "C15" => w.cnt.get("c15_twin_comparisons") > 3 && w.cnt.get("op_seq_remove") + w.cnt.get("op_text_remove") + w.cnt.get("op_map_remove") + w.cnt.get("op_map_set") > 0,
